@@ -5,6 +5,7 @@ CONSTANTS
   EnforceTrkMarker = TRUE
   SessionEndRule = "ignore"
   CookieAgeOverridesExp = FALSE
+  AudienceIsUrlRoot = FALSE
 INIT Init
 NEXT Next
 INVARIANTS
